@@ -132,11 +132,14 @@ PROPS["C19"] = {
                    "c19::c19_borrowed_only", "c19::c19_future_object_chain2", "c19::c19_future_object_star2",
                    "c19::c19_negative_twin"],
          "cbmc_args": LEAK, "timeout": 1800},
+        {"id": "stream", "crate": "fut", "quick": ["c19_stream_object_chain2", "c19_stream_object_star2"],
+         "cbmc_args": LEAK, "timeout": 1800},
     ],
     "negative": ["c19::c19_negative_twin"],
     "bounds": "enumerated derivation skeletons of <= 3 foreign wakers (chain2, star2, chain3, mixed tree with a late clone, "
               "borrowed-only, and chain2/star2 inside the poll of a boxed future driven through the GENERATED Future glue of "
-              "trait_obj!(.. as Future) with symbolic Ready/Pending and output); on each skeleton ALL histories over: per handle the phase (of 3, the last after with_waker "
+              "trait_obj!(.. as Future) with symbolic Ready/Pending and output, and of a boxed stream through the generated Stream glue "
+              "(cglue feature futures) with symbolic Pending / Ready(Some) / Ready(None)); on each skeleton ALL histories over: per handle the phase (of 3, the last after with_waker "
               "returned) in which it ends, by drop or by wake-by-value, wake_by_ref per handle and phase, wake_by_ref on the "
               "borrowed waker, order inside the last phase; CBMC leak check on (the BaseArc block is freed exactly once)",
     "outside": "other threads (Kani is sequential; BaseArc's atomics are modelled sequentially); more than 3 foreign handles; "
